@@ -13,6 +13,7 @@ TraceNext ==
      \/ IsEvent("B") /\ SetB(Ev.n)
      \/ IsEvent("DS") /\ SetDataSet(Ev.v)
      \/ IsEvent("SEND") /\ Send(Ev.glen, Ev.after, Ev.asc, Ev.code, Ev.flag, Ev.ndata, Ev.lenA, Ev.lenB)
+     \/ IsEvent("LSEND") /\ LSend(Ev.glen, Ev.after, Ev.asc, Ev.code, Ev.flag, Ev.ndata)
   /\ l' = l + 1 /\ tid' = tid
   /\ IF TLCGet(tid).reached < l THEN TLCSet(tid, [reached |-> l, inv |-> ""]) ELSE TRUE
 TraceSpec == TraceInit /\ [][TraceNext]_tvars
